@@ -81,7 +81,10 @@ func (c *stepCtx) stepPar(k int, st map[string]interface{}) []string {
 // types named Col<n> whose runtime types share a slot of the descriptor table.
 var colUsed = map[string]bool{}
 
-func colPairs(g int) [][2]string {
+func colPairs(g int) [][2]string { return colPairsMode(g, false) }
+
+// ptrOnly: both types must share the slot of their POINTER types (the key every call with a pointer looks up)
+func colPairsMode(g int, ptrOnly bool) [][2]string {
 	by := map[uintptr][]string{}
 	var names []string
 	for name := range genTypes {
@@ -92,8 +95,11 @@ func colPairs(g int) [][2]string {
 	sort.Strings(names)
 	var out [][2]string
 	// a type occupies the slot of T and (used through a pointer) the slot of *T
-	slots := func(name string) [2]uintptr {
-		return [2]uintptr{abiOf(genTypes[name]) & 0xffff, abiOf(reflect.PtrTo(genTypes[name])) & 0xffff}
+	slots := func(name string) []uintptr {
+		if ptrOnly {
+			return []uintptr{abiOf(reflect.PtrTo(genTypes[name])) & 0xffff}
+		}
+		return []uintptr{abiOf(genTypes[name]) & 0xffff, abiOf(reflect.PtrTo(genTypes[name])) & 0xffff}
 	}
 	for _, name := range names {
 		for _, b := range slots(name) {
